@@ -479,6 +479,12 @@ func (vx *Vaxis) Refresh() {
 	vx.Render()
 }
 
+// unknownCell marks a cell of screenLast whose content on the terminal is not
+// known (it lies under a wide character). It compares unequal to every cell
+// the render loop can compare it with, because cells with the sixel flag are
+// never compared.
+var unknownCell = Cell{sixel: true}
+
 func (vx *Vaxis) render() {
 	vx.mu.Lock()
 	defer vx.mu.Unlock()
@@ -543,7 +549,7 @@ outerNew:
 						break
 					}
 					// null out any cells we end up skipping
-					vx.screenLast.buf[row][col+i] = Cell{}
+					vx.screenLast.buf[row][col+i] = unknownCell
 				}
 				col += skip
 				continue
@@ -744,7 +750,7 @@ outerNew:
 					break
 				}
 				// null out any cells we end up skipping
-				vx.screenLast.buf[row][col+i] = Cell{}
+				vx.screenLast.buf[row][col+i] = unknownCell
 			}
 			col += skip
 		}
